@@ -123,6 +123,17 @@ class Opaque:
     pass
 
 
+# The ID of an object: an immutable attribute in every operation under contract, so a function of the object identity
+# (not a heap field).  Only equality and truthiness ('' = unregistered = 0) are modelled; two distinct objects may carry
+# the same ID (unregistered units all report '').
+UID = z3.Function('uid', I, I)
+
+
+class StrV:
+    """A string-valued attribute known only up to identity (t: Int term, 0 = the empty string)."""
+    def __init__(self, t): self.t = t
+
+
 NONE = Ref(z3.IntVal(0), None)
 
 
@@ -361,6 +372,7 @@ class Exec:
         if isinstance(v, BoolV): return v.t
         if isinstance(v, Const): return z3.BoolVal(bool(v.v))
         if isinstance(v, IntV): return v.t != 0
+        if isinstance(v, StrV): return v.t != 0
         if isinstance(v, Ref):
             if v.cls in ('Inlets', 'Outlets'):
                 return z3.And(v.t != 0, z3.Select(heap.llen, v.t) > 0)
@@ -415,7 +427,7 @@ class Exec:
                     if a == 'MissingStream': return ClassV(['AbstractMissingStream'])
                     if a == 'Stream': return ClassV(['AbstractStream'])
                     if a == 'stream_types': return ClassV(['AbstractStream', 'AbstractMissingStream'])
-                if a == 'ID': return Opaque()
+                if a == 'ID': return StrV(UID(o.t))
                 return BoundMethod(o, a)
             if isinstance(o, ListV):
                 return BoundMethod(o, a)
@@ -476,6 +488,10 @@ class Exec:
             ra, rb = self.ref(a), self.ref(b)
             r = ra.t == rb.t
             return r if isinstance(op, (ast.Is, ast.Eq)) else z3.Not(r)
+        if isinstance(a, StrV) and isinstance(b, StrV) and isinstance(op, (ast.Eq, ast.NotEq)):
+            return (a.t == b.t) if isinstance(op, ast.Eq) else (a.t != b.t)
+        if isinstance(a, StrV): a = Opaque()
+        if isinstance(b, StrV): b = Opaque()
         if isinstance(a, IntV) and isinstance(b, IntV):
             return {ast.Eq: a.t == b.t, ast.NotEq: a.t != b.t, ast.Lt: a.t < b.t, ast.LtE: a.t <= b.t,
                     ast.Gt: a.t > b.t, ast.GtE: a.t >= b.t}[type(op)]
